@@ -110,6 +110,52 @@ CHECKS = {
         'max_history=0 excluded (mean of zero samples undefined); durations '
         'are dyadic so sums are exact.',
         '3/C20'),
+    'C15': (
+        'bounded-exhaustive enumeration of layer geometries on the real '
+        'module helpers against F.unfold / explicit outer-product sums',
+        'Every convolution geometry in a finite box (channels, rectangular '
+        'kernels, strides, zero paddings, input sizes incl. ones not '
+        'divisible by the stride, bias, batch) and every linear geometry '
+        '(in/out 1..4, input rank 2-4, bias) is run through the real '
+        'helpers with position-revealing integer data in float64; patch '
+        'extraction, combined-gradient layout, set/get round trip and '
+        'parameter views are compared bit-exactly, factor shapes and '
+        'moments against float64 references.',
+        'dilation 1, groups 1; geometry box bounded (channels/stride <=2-3, '
+        'kernel <=3, padding <=1-2).',
+        '3/C15'),
+    'C05': (
+        'explicit-state BFS over operation histories of the real '
+        'preconditioner (states deep-copied and merged by digest) in '
+        'lock-step with a reference K-FAC state machine',
+        'For each configuration (interval pairs incl. non-multiples and '
+        'callables, accumulation, hook/no-hook, constant or step-dependent '
+        'callable hyper-parameters, three compute methods) every history up '
+        'to depth 5 (quick) / 7 (thorough) over {train iteration, eval pass, '
+        'reset_batch, checkpoint round trip into a fresh object, scheduler '
+        'step} is executed on the real KFACPreconditioner and compared after '
+        'every operation with RefKFAC (gradients, factors, step count, '
+        'hyper-parameters, bit-stability of factors / second-order data on '
+        'non-update steps).',
+        'one small model; tensor values from a fixed lattice; float32 '
+        'tolerances scale with the conditioning of the reference system; '
+        'quick covers one third of the configuration box per seed.',
+        '3/C05'),
+    'C01': (
+        'bounded-exhaustive enumeration of a configuration box x every step '
+        'of a run on the real code, each step checked against the defining '
+        'linear system in float64',
+        'For every configuration in the box (6 models covering linear / '
+        'conv, bias on/off, square layers, N-d inputs; 3 methods; 4 '
+        'dampings; 3 decays; dtype triples; clipping active/inactive) and '
+        'every step of the run, the gradient left by step() divided by the '
+        'clip scale must satisfy (G+dI)V(A+dI)=D resp. GVA+dV=D with '
+        'PSD-projected factors, built in float64 from the state_dict '
+        'factors; extra families: rank-deficient batches with bf16 factors, '
+        'explicitly indefinite loaded factors, step-dependent damping.',
+        'numeric universals are decided over a finite data lattice; '
+        'tolerance 30*eps*(1+kappa) with kappa from the stored factors.',
+        '3/C01'),
 }
 
 NOT_YET = 'check not built yet (work in progress, see DESIGN.md section 8)'
